@@ -100,7 +100,13 @@ Inductive case :=
 (* structured expressions: the generator made the tree / field list [want]
    first and printed it in the documented syntax as [q] *)
 | CSFilter (q : bytes) (t : oracle) (want : filter) (fp : obs filter) (nf : obs unit)
-| CSProj (q : bytes) (want : list pfield) (pp : obs (list pfield)) (np : obs unit).
+| CSProj (q : bytes) (want : list pfield) (pp : obs (list pfield)) (np : obs unit)
+(* a regexp in value position: the text is pre ++ "/" ++ s, where [pre] is a
+   well-formed beginning that ends right where a value is expected (k: , k:( ,
+   k:(x OR , .unit: ...) and holds no regexp itself; [s] is everything after
+   the opening slash (regexp body with \Q..\E sections, classes, escaped
+   slashes, then the closing slash -- or none -- and what follows) *)
+| CReDelim (pre s : bytes) (t : oracle) (fp : obs filter) (nf : obs unit).
 
 Definition decode (s : sx) : option case :=
   match s with
@@ -130,6 +136,10 @@ Definition decode (s : sx) : option case :=
       do want <- as_list dec_field want;
       do pp <- dec_pobs pp; do np <- dec_uobs np;
       Some (CSProj q want pp np)
+  | SL [SZ 7; SB pre; SB s; t; fp; nf] =>
+      do t <- as_list (as_pair as_b as_bool) t;
+      do fp <- dec_fobs fp; do nf <- dec_uobs nf;
+      Some (CReDelim pre s t fp nf)
   | _ => None
   end.
 
@@ -200,6 +210,9 @@ Definition corr_ok (c : case) : bool :=
       obs_eq filter_eqb (pf t q) fp && obs_eq_u (nf_ t q) nf
   | CSProj q want pp np =>
       obs_eq fields_eqb (pp_ [] q) pp && obs_eq_u (np_ [] q) np
+  | CReDelim pre s t fp nf =>
+      let q := pre ++ c_fslash :: s in
+      obs_eq filter_eqb (pf t q) fp && obs_eq_u (nf_ t q) nf
   end.
 
 Definition to_cfg (l : list (bytes * bytes * bool)) : list cfg :=
@@ -233,6 +246,50 @@ Definition rejected_at (bad : list nat) (o : obs unit) : bool :=
   match bad with
   | [] => is_ok o
   | _ => match o with OErr z => existsb (fun off => Z.eqb (Z.of_nat off) z) bad | _ => false end
+  end.
+
+(** the regexps of a filter tree, in the order of the text *)
+Fixpoint filter_res (x : filter) : list bytes :=
+  match x with
+  | FMatch _ (MRe e) _ => [e]
+  | FMatch _ (MLit _) _ => []
+  | FAnd l | FOr l => flat_map filter_res l
+  | FNot y => filter_res y
+  end.
+
+Definition err_at {A} (off : nat) (o : obs A) : bool :=
+  match o with OErr z => Z.eqb (Z.of_nat off) z | _ => false end.
+
+(** where the specification puts the end of a regexp that starts right after
+    [pre]: [re_scan] (the first slash outside [...] and (...) that no
+    backslash hides; \Q and \E are backslash pairs like any other, so a slash
+    inside a \Q..\E section DOES close the regexp).  Outcome demanded of the
+    filter parser on pre ++ "/" ++ s:
+    - no such slash: syntax error at the opening slash;
+    - the text up to it does not compile: syntax error at the opening slash;
+    - it is followed by something other than end / space / operator start:
+      syntax error right after the closing slash;
+    - else the regexp token is exactly that text: an accepted filter's first
+      regexp is that text, and any error lies after the closing slash.
+    Never a panic, a hang ((4), the watchdog's verdict) or another error. *)
+Definition re_delim_ok (pre s : bytes) (t : oracle) (fp : obs filter) : bool :=
+  let p := length pre in
+  match re_scan s 0 0 false with
+  | None => err_at p fp
+  | Some i =>
+      let expr := firstn i s in
+      if negb (re_lookup t expr) then err_at p fp
+      else
+        let follow_ok := match skipn (S i) s with
+                         | [] => true
+                         | d :: _ => sp (bN d) || is_start_op d
+                         end in
+        if negb follow_ok then err_at (p + i + 2) fp
+        else match fp with
+             | OOk x => match filter_res x with e :: _ => beq e expr | [] => false end
+             | OErr z => (Z.of_nat (p + i + 2) <=? z)%Z
+             | OBad _ => false
+             end
   end.
 
 (** specification predicates on the implementation's observed behaviour *)
@@ -319,6 +376,18 @@ Definition prop_ok (c : case) : bool :=
   | CSProj q want pp np =>
       match pp with OOk l => fields_eqb l want | _ => false end
       && rejected_at (bad_fields want) np
+  | CReDelim pre s t fp nf =>
+      let n := length pre + S (length s) in
+      (* never a hang or a panic; offsets inside the text *)
+      clean n fp && clean n nf
+      (* the regexp ends where the specification says *)
+      && re_delim_ok pre s t fp
+      (* the semantic layer only rejects more, and only .config / empty keys *)
+      && (is_ok fp || negb (is_ok nf))
+      && match fp with
+         | OOk x => rejected_at (bad_terms x) nf
+         | _ => true
+         end
   end.
 
 Definition run_case (s : sx) : N :=
